@@ -770,8 +770,12 @@ class Interp:
         if isinstance(op, ast.GtE):
             return a >= b
         if isinstance(op, ast.In):
+            if isinstance(b, str):
+                return isinstance(a, str) and a in b
             return a in [num(x) for x in self.iterate(b)]
         if isinstance(op, ast.NotIn):
+            if isinstance(b, str):
+                return not (isinstance(a, str) and a in b)
             return a not in [num(x) for x in self.iterate(b)]
         if isinstance(op, ast.Is):
             return a == b if isinstance(a, str) and isinstance(b, str) else a is b
@@ -780,6 +784,12 @@ class Interp:
         raise Refuse("comparison operator")
 
     def getitem(self, cont, idx):
+        if getattr(cont, "_py2lean_native", False):
+            return cont[idx]
+        if isinstance(cont, str):
+            if isinstance(idx, slice):
+                return cont[idx]
+            return cont[self.as_int(idx)]
         if isinstance(cont, dict):
             k = self.hashable(idx)
             if k not in cont:
@@ -812,6 +822,8 @@ class Interp:
                 and e.value.id not in self.classes and e.value.id not in env):
             return e.attr
         o = self.eval(e.value, env)
+        if getattr(o, "_py2lean_native", False):
+            return getattr(o, e.attr)
         if isinstance(o, Obj):
             if e.attr in o.attrs:
                 return o.attrs[e.attr]
@@ -914,6 +926,8 @@ class Interp:
             if isinstance(a, NDArray):
                 return Sym.q(len(a.data))
             return Sym.q(len(a))
+        if name == "str":
+            return str(args[0])
         if name == "range":
             return list(Sym.q(i) for i in range(*[self.as_int(a) for a in args]))
         if name == "enumerate":
